@@ -34,6 +34,36 @@ def block_case(c):
     return "CBlock alpha kinds %s %s %s" % (prefix, g.z(c["state"]), outs)
 
 
+TAIL = ("Definition V := Eval vm_compute in verdicts cases.\n"
+        "Definition M := Eval vm_compute in mismatches_of V.\nDefinition N := Eval vm_compute in self_check_notes_of V.\n"
+        "Print M.\nPrint N.\n")
+
+
+def correspond(ctx, name, body, ncases):
+    """ctx.correspondence plus the second list N: cases that differ ONLY in the answer of the archive's self-check
+    IsNonDominant() on streams outside the theorems' hypotheses (reported, not an obligation: DESIGN 8/C05 note)."""
+    import re
+    ok, so, se = ctx.coq_cases(name, body)
+    label = "correspondence:" + name
+    if not ok:
+        ctx.oblige(label, False, (se or so)[-1500:])
+        ctx.broken.append("%s (gen/%s.v does not compile: %s)" % (label, name, " ".join((se or so).split())[-300:]))
+        return None, None
+    m = re.search(r"M\s*=\s*(\[.*?\])\s*:\s*list", so, flags=re.S)
+    n = re.search(r"N\s*=\s*(\[.*?\])\s*:\s*list", so, flags=re.S)
+    if not m or not n:
+        ctx.oblige(label, False, "cannot parse mismatch lists: " + so[-500:])
+        ctx.broken.append(label + " (unparsable output)")
+        return None, None
+    idx = [int(x) for x in re.findall(r"\d+", m.group(1))]
+    notes = [int(x) for x in re.findall(r"\d+", n.group(1))]
+    ctx.oblige(label, not idx, "" if not idx else "mismatching case indices: %s" % idx[:20])
+    if idx:
+        ctx.broken.append("%s (model and implementation differ on %d of %s cases, first index %d)" %
+                          (label, len(idx), ncases, idx[0]))
+    return idx, notes
+
+
 PRE = g.HEADER + "From Crem Require Import Base.Res Base.Fl Dominance NdArchive NdArchiveCorr.\nOpen Scope Q_scope.\n"
 
 
@@ -51,6 +81,7 @@ def run(ctx):
             alpha = l["cands"]
     ctx.check_theorems("Properties/C05.v")
 
+    selfcheck_notes = []
     seqs = [c for c in cases if c["type"] == "seq"]
     blocks = [c for c in cases if c["type"] == "block"]
     nshards = 0
@@ -67,9 +98,11 @@ def run(ctx):
         shards.append(shard)
     for si, sh in enumerate(shards):
         body = PRE + "Definition cases : list case := [\n  " + ";\n  ".join(seq_case(c) for c in sh) + "\n].\n"
-        body += "Definition M := Eval vm_compute in mismatches cases.\nPrint M.\n"
-        idx = ctx.correspondence("cases_C05_seq_%d" % si, body, ncases=len(sh))
+        body += TAIL
+        idx, notes = correspond(ctx, "cases_C05_seq_%d" % si, body, len(sh))
         nshards += 1
+        for i in (notes or []):
+            selfcheck_notes.append({"class": sh[i]["class"], "ops": len(sh[i]["ops"])})
         for i in (idx or [])[:3]:
             ctx.notes.append({"mismatch_sequence_case": {k: sh[i][k] for k in ("class", "ops", "obs")}})
 
@@ -80,12 +113,17 @@ def run(ctx):
         for si, sh in enumerate(g.chunks(blocks, SHARD_BLOCKS)):
             body = PRE + alpha_def
             body += "Definition cases : list case := [\n  " + ";\n  ".join(block_case(c) for c in sh) + "\n].\n"
-            body += "Definition M := Eval vm_compute in mismatches cases.\nPrint M.\n"
-            idx = ctx.correspondence("cases_C05_block_%d" % si, body, ncases=len(sh))
+            body += TAIL
+            idx, _ = correspond(ctx, "cases_C05_block_%d" % si, body, len(sh))
             nshards += 1
             for i in (idx or [])[:3]:
                 ctx.notes.append({"mismatch_block_case": sh[i]})
 
+    if selfcheck_notes:
+        ctx.notes.append({"self_check_model_differs_outside_hypotheses":
+                          "IsNonDominant() answered differently from the model on %d sequence case(s) that use raw forces or "
+                          "forced stores on inconsistent streams; not part of C05 (the self-check is not the property)" % len(selfcheck_notes),
+                          "cases": selfcheck_notes[:10]})
     st = ctx.stats or {}
     distinct = len({(str(c["ops"])) for c in seqs if len(c["ops"]) >= 2}) + st.get("grid_sequences", 0)
     ctx.coverage.update({
